@@ -274,7 +274,11 @@ htp_status_t htp_gzip_decompressor_decompress(htp_decompressor_t *drec1, htp_tx_
     // which may have arrived in earlier calls.
     if ((drec->zlib_initialized != 0) && (drec->head_len != (size_t) -1)) {
         unsigned char *head = NULL;
-        if ((drec->stream.total_out == 0) && (drec->head_len + d->len <= GZIP_BUF_SIZE)) {
+        // (what is kept from earlier calls is at most one output buffer; the current
+        // piece is added to it whatever its size, or a retry in this call would
+        // start without the earlier bytes)
+        if ((drec->stream.total_out == 0) &&
+            ((drec->head_len + d->len <= GZIP_BUF_SIZE) || ((drec->head_len > 0) && (drec->head_len <= GZIP_BUF_SIZE)))) {
             head = realloc(drec->head, drec->head_len + d->len);
         }
         if (head != NULL) {
